@@ -33,6 +33,7 @@ def gen_vec(rng, cid, nmax=3, two=False):
         rng.shuffle(du)
         rng.shuffle(dv)
         comp = rng.choice(axnames)
+        halves = False
         if g["extra"] and not two and rng.random() < 0.4:
             # a partner that does not depend on the extra dimension (a steady field next to a time-dependent one)
             ex = {e[0] for e in g["extra"]}
@@ -42,6 +43,13 @@ def gen_vec(rng, cid, nmax=3, two=False):
                 du = [d for d in du if d[0] not in ex]
         u, v = gen.rand_data(rng, du, -9, 9), gen.rand_data(rng, dv, -9, 9)
         data, other = (u, v) if comp == "a1" else (v, u)
+        if not two and rng.random() < 0.2:
+            # an integer component next to a partner with fractional values (records hold twice the real values)
+            data["flat"] = [2 * x for x in data["flat"]]
+            other["flat"] = [2 * x + 1 for x in other["flat"]]
+            data["den"] = other["den"] = 2
+            data["dtype"] = rng.choice(["int32", "int64"])
+            halves = True
         if two:
             data, other = (u, v) if comp == "a1" else (v, u)
             return {"id": cid, "ev": "Vec2D", "op": rng.choice(["diff", "interp"]), "grid": g,
@@ -50,11 +58,22 @@ def gen_vec(rng, cid, nmax=3, two=False):
                              "to": rng.choice([NONE, S("center")]),
                              "boundary": gen.rand_tagged(rng, axnames, gen.RULES, partial=True),
                              "fill_value": gen.rand_tagged(rng, axnames, [-3, 0, 2, 7], partial=True)}}
-        return {"id": cid, "ev": "FaceVec", "op": rng.choice(["diff", "interp"]), "grid": g,
+        case = {"id": cid, "ev": "FaceVec", "op": rng.choice(["diff", "interp"]), "grid": g,
                 "decomp": {"K": list(K), "per": list(per), "orient": [list(o) for o in orient]},
                 "args": {"data": data, "other": other, "axis": [comp], "to": rng.choice([NONE, S("center")]),
                          "boundary": gen.rand_tagged(rng, axnames, gen.RULES, partial=True),
                          "fill_value": gen.rand_tagged(rng, axnames, [-3, 0, 2, 7], partial=True)}}
+        if halves:
+            def twice(t):
+                if t["k"] == "s":
+                    return {"k": "s", "v": 2 * t["v"]}
+                if t["k"] == "m":
+                    return {"k": "m", "v": [[a_, 2 * v_] for a_, v_ in t["v"]]}
+                return t
+            g["ctor"]["fill_value"] = twice(g["ctor"]["fill_value"])
+            case["args"]["fill_value"] = twice(case["args"]["fill_value"])
+            g["fill_den"] = case["args"]["fill_den"] = 2
+        return case
 
 
 def gen_plain(rng, cid):
@@ -75,7 +94,7 @@ def execute(case):
         grid, ds = model.make_grid(case["grid"])
         da = model.make_array(a["data"], nm, ds, name="v1")
         kw = model.call_kwargs(a, nm)
-        scale = 2 if case["op"] == "interp" else 1
+        scale = (2 if case["op"] == "interp" else 1) * a["data"].get("den", 1)
         if case["ev"] == "FaceVec":
             oth = model.make_array(a["other"], nm, ds, name="v2")
             other_ax = "a2" if a["axis"][0] == "a1" else "a1"
